@@ -310,11 +310,18 @@ def main_wrapper(pid, run_fn):
     ap.add_argument('--replay')
     a = ap.parse_args(sys.argv[2:])
     seed = int(os.environ.get('VERIF_SEED', '0'))
-    ctx = Ctx(pid, a.tier, seed)
-    ctx.replay = None
+    tier = a.tier
+    replay = None
     if a.replay:
+        # every random choice derives from (property, seed, tier): re-running the recorded seed and tier
+        # regenerates the recorded case (and everything generated before it) against the current tree
         with open(a.replay) as f:
-            ctx.replay = json.load(f)
+            replay = json.load(f)
+        seed = int(replay.get('seed', seed))
+        tier = replay.get('tier', tier)
+        print(f'replaying {a.replay}: seed={seed} tier={tier} leg={replay.get("leg")} what={str(replay.get("what"))[:200]}')
+    ctx = Ctx(pid, tier, seed)
+    ctx.replay = replay
     try:
         ctx.prove()
         run_fn(ctx)
